@@ -37,6 +37,7 @@ import (
 	"sigs.k8s.io/cli-utils/pkg/inventory"
 	"sigs.k8s.io/cli-utils/pkg/object"
 	"sigs.k8s.io/cli-utils/pkg/object/dependson"
+	"sigs.k8s.io/cli-utils/pkg/object/mutation"
 	"sigs.k8s.io/yaml"
 	"verifharness/emit"
 )
@@ -305,7 +306,46 @@ func keepAnnotations(e UEntry, id int, keep bool) map[string]string {
 	return keepVariants[v].off
 }
 
-func depsAnnotation(univ Universe, deps []int, bad bool) (string, bool) {
+// srcPath / tgtPath: every object carries the two annotations `src` and `tgt`
+// (constant value), so that a dependency reference can also be spelled as an
+// apply-time-mutation substitution `source.src -> target.tgt` that changes
+// nothing: the graph gets the same edge, and in correct code the dependent is
+// applied only after the source was observed Current with its body, so the
+// mutator finds it in the resource cache (no extra GET).
+const (
+	srcPath      = "$.metadata.annotations.src"
+	tgtPath      = "$.metadata.annotations.tgt"
+	malformedMut = "{bad"
+)
+
+// depsAnnotation returns key and value of the one annotation that spells the
+// dependency references of an object: depends-on, or — for a `Mut` identifier,
+// in every incarnation of it — apply-time-mutation. One key per identifier:
+// kubectl's three-way merge works per key and the model knows one annotation.
+func depsAnnotation(univ Universe, id int, deps []int, bad bool) (string, string, bool) {
+	if univ[id].Mut {
+		if bad {
+			return mutation.Annotation, malformedMut, true
+		}
+		if len(deps) == 0 {
+			return "", "", false
+		}
+		var subs mutation.ApplyTimeMutation
+		for _, d := range deps {
+			subs = append(subs, mutation.FieldSubstitution{
+				SourceRef: mutation.ResourceReferenceFromObjMetadata(univ[d].Meta), SourcePath: srcPath, TargetPath: tgtPath})
+		}
+		b, err := yaml.Marshal(subs)
+		if err != nil {
+			panic(err)
+		}
+		return mutation.Annotation, string(b), true
+	}
+	k, ok := dependsOnAnnotation(univ, deps, bad)
+	return dependson.Annotation, k, ok
+}
+
+func dependsOnAnnotation(univ Universe, deps []int, bad bool) (string, bool) {
 	if bad {
 		return malformedDep, true
 	}
@@ -330,9 +370,9 @@ func content(univ Universe, id int, deps []int, bad, keep bool, ver int, owner O
 	if e.Meta.Namespace != "" {
 		md["namespace"] = e.Meta.Namespace
 	}
-	ann := map[string]interface{}{}
-	if s, ok := depsAnnotation(univ, deps, bad); ok {
-		ann[dependson.Annotation] = s
+	ann := map[string]interface{}{"src": "v", "tgt": "v"}
+	if k, s, ok := depsAnnotation(univ, id, deps, bad); ok {
+		ann[k] = s
 	}
 	for k, v := range keepAnnotations(e, id, keep) {
 		ann[k] = v
@@ -463,6 +503,22 @@ func (st *Store) cobjAttrs(o *unstructured.Unstructured) CObj {
 				i := st.univ.Index(d)
 				if i < 0 {
 					st.note("live depends-on target outside the universe: "+"%s", d.String())
+					i = 99
+				}
+				c.Deps = append(c.Deps, i)
+			}
+		}
+	}
+	if mutation.HasAnnotation(o) {
+		subs, err := mutation.ReadAnnotation(o)
+		if err != nil {
+			c.BadDep = true
+		} else {
+			for _, sub := range subs {
+				d := sub.SourceRef.ToObjMetadata()
+				i := st.univ.Index(d)
+				if i < 0 {
+					st.note("live apply-time-mutation source outside the universe: %s", d.String())
 					i = 99
 				}
 				c.Deps = append(c.Deps, i)
